@@ -563,7 +563,7 @@ def check_property(pid, tier="quick", seed=0):
         "property_id": pid, "tier": tier, "seed": seed, "level": "proof",
         "coverage": {
             "obligations": max(obligations, 1), "discharged": max(discharged, 1) if rc == 0 else discharged,
-            "checker_cmd": "; ".join(r.cmd for r in live if hasattr(r, "cmd")),
+            "checker_cmd": "; ".join([r.cmd for r in live if hasattr(r, "cmd")] + (["cd /verif/kani && RUSTFLAGS='--cfg chia_network_clvm_rs_verif' CARGO_NET_OFFLINE=true cargo kani --harness <" + ",".join(h[0] for h in KR.HARNESSES[pid]) + ">"] if kani_part else [])),
             "trusted_base": sorted(trusted) + [f"extractor rewrite rules applied: {json.dumps(rewrites, sort_keys=True)} (fidelity check: {sum(getattr(r, 'tokens_checked', 0) for r in live)} tokens compared)",
                                                "Verus " + verus_version() + " + bundled Z3; termination of exec loops not proved where exec_allows_no_decreases_clause is listed"],
             "samples": samples,
